@@ -82,6 +82,7 @@ type seenReq struct {
 	phone  string
 	msgID  int64
 	conn   int
+	redir  bool // answered with another PHONE_MIGRATE_X at once (a request redirected twice)
 }
 
 type multiGate struct {
@@ -147,15 +148,26 @@ func (g *multiGate) hook(point string, id int64) {
 func migrateMultiOne(id string, sp mspec) {
 	o := &mobs{id: id}
 	dir := scratch()
-	var xs []int
+	// "2>3": the data centre the request is repeated at (2) redirects it AGAIN, to 3 (a request redirected twice)
+	var xs, chainTo []int
 	for _, x := range strings.Split(sp.xs, "+") {
+		to := 0
+		if i := strings.Index(x, ">"); i >= 0 {
+			t, err := strconv.Atoi(x[i+1:])
+			if err != nil {
+				die("bad xs %q", sp.xs)
+			}
+			to, x = t, x[:i]
+		}
 		n, err := strconv.Atoi(x)
 		if err != nil {
 			die("bad xs %q", sp.xs)
 		}
 		xs = append(xs, n)
+		chainTo = append(chainTo, to)
 	}
 	k := len(xs)
+	chained := make([]bool, k)
 	seed := vc.Seed()*7919 + uint64(len(sp.String()))
 	A, err := refserver.New(refserver.Options{Seed: seed})
 	if err != nil {
@@ -223,22 +235,41 @@ func migrateMultiOne(id string, sp mspec) {
 							first = false
 						}
 					}
-					seen = append(seen, seenReq{"A", q.PhoneNumber, f.MsgID, f.Conn})
+					seen = append(seen, seenReq{"A", q.PhoneNumber, f.MsgID, f.Conn, false})
 					smu.Unlock()
 					_ = first // the first arrival at A is the original request; A answers it in the container below
 					return
 				}
-				r := seenReq{n, q.PhoneNumber, f.MsgID, f.Conn}
+				r := seenReq{n, q.PhoneNumber, f.MsgID, f.Conn, false}
 				smu.Lock()
+				for i := range phones {
+					if phones[i] == q.PhoneNumber && chainTo[i] != 0 && !chained[i] && dcServer[xs[i]] == n {
+						// the data centre the request was repeated at sends it on
+						chained[i] = true
+						r.redir = true
+					}
+				}
 				seen = append(seen, r)
+				to := 0
+				if r.redir {
+					for i := range phones {
+						if phones[i] == q.PhoneNumber {
+							to = chainTo[i]
+						}
+					}
+				}
 				smu.Unlock()
+				if r.redir {
+					_ = s.Send(refserver.Msg{MsgID: s.NextMsgID(true), SeqNo: 1, Body: refserver.RpcResult(f.MsgID, refserver.RpcError(303, "PHONE_MIGRATE_"+strconv.Itoa(to)))})
+					return
+				}
 				if immediate {
 					answer(n, r)
 				}
 			case *objects.PingParams:
 				if q.PingID == 4242 {
 					smu.Lock()
-					seen = append(seen, seenReq{n, "later", f.MsgID, f.Conn})
+					seen = append(seen, seenReq{n, "later", f.MsgID, f.Conn, false})
 					smu.Unlock()
 					_ = s.Send(refserver.Msg{MsgID: s.NextMsgID(true), SeqNo: 2, Body: refserver.RpcResult(f.MsgID, refserver.Pong(f.MsgID, 4242))})
 				}
@@ -351,7 +382,12 @@ func migrateMultiOne(id string, sp mspec) {
 	}
 	_ = A.Send(refserver.Msg{MsgID: A.NextMsgID(false), SeqNo: seq, Body: refserver.Container(items)})
 
-	want := func(i int) string { return dcServer[xs[i]] }
+	want := func(i int) string {
+		if chainTo[i] != 0 {
+			return dcServer[chainTo[i]]
+		}
+		return dcServer[xs[i]]
+	}
 	arrived := func() int {
 		n := 0
 		for i := 0; i < k; i++ {
@@ -431,7 +467,7 @@ func migrateMultiOne(id string, sp mspec) {
 		todo := append([]seenReq(nil), seen...)
 		smu.Unlock()
 		for _, r := range todo {
-			if r.server != "A" && r.phone != "later" {
+			if r.server != "A" && r.phone != "later" && !r.redir {
 				answer(r.server, r)
 			}
 		}
